@@ -23,7 +23,8 @@ R11.4 writer / reader: ``store_metadata`` pipes every non-user value through
       ``get_config_value_func(sec, ck)`` of the same section/key, decodes
       bytes, refuses unknown sections/keys; ``parse_config`` decodes bytes
       and assigns through a checking ``Configuration``; ``load_from_file``
-      converts known keys; export carries all CFG_METADATA sections + user.
+      converts known keys, and – interpreted on a model file with mixed-case
+      keys – yields what item assignment of the same text stores; export carries all CFG_METADATA sections + user.
 R11.5 type closure of the converters: evaluated over modelled Python / numpy
       types, every converter accepts each representative of its declared
       output types (func_types) and what the HDF5 attribute layer hands back
@@ -446,6 +447,47 @@ def build_config_model(repo, mc, ml):
         interp.steps = 0
         res = globs["verify_section_key"](section, key)
         return res, rec_box[0]
+    # ---- load_from_file on a model file -----------------------------
+    f_load = repo.func(CONF, "load_from_file")
+    f_guess = repo.func(CONF, "keyval_str2typ", missing_ok=True)
+
+    class CIDict(dict):
+        """section-less ConfigurationDict: keys pass _k, values as given"""
+
+        def __setitem__(self, k, v):
+            if v is not None:
+                dict.__setitem__(self, bound_k(k), v)
+
+        def __getitem__(self, k):
+            return dict.__getitem__(self, bound_k(k))
+
+        def __contains__(self, k):
+            return dict.__contains__(self, bound_k(k))
+
+    def new_dict(section=None, *a, **k):
+        if section is not None or a or k:
+            raise AnalysisError("load_from_file: ConfigurationDict created "
+                                "with arguments – not modelled")
+        return CIDict()
+    new_dict.model_callable = True
+
+    def load(lines):
+        """{section: {key: value}} as returned by load_from_file"""
+        fobj = Namespace("file", readlines=lambda: list(lines),
+                         read=lambda: "".join(lines))
+        fobj.__dict__["__enter__"] = lambda: fobj
+        path = Namespace("path")
+        path.resolve = lambda *a, **k: path
+        path.open = lambda *a, **k: fobj
+        g2 = dict(globs)
+        g2["ConfigurationDict"] = new_dict
+        g2["pathlib"] = Namespace("pathlib", Path=lambda p: path)
+        g2["open"] = lambda *a, **k: fobj
+        if f_guess is not None:
+            g2["keyval_str2typ"] = Func(f_guess, g2, interp)
+        interp.steps = 0
+        return Func(f_load, g2, interp)("model.cfg")
+    setitem.load = load
     return setitem, verify, bound_k
 
 
@@ -1092,7 +1134,7 @@ def _section_expr_ok(e, sec_txt):
 # ----------------------------------------------------------------------
 # R11.4
 
-def r114(ctx, repo):
+def r114(ctx, repo, setitem):
     sm = repo.func(WR, "RTDCWriter.store_metadata")
     # attribute stores
     stores = [n for n in walk(sm) if isinstance(n, ast.Assign) and any(
@@ -1282,6 +1324,72 @@ def r114(ctx, repo):
            "converter", node=conv[0] if conv else lf,
            label="file values converted")
 
+    # the same, decided on a model file: what ends up in the configuration
+    # (load_from_file, then Configuration.update -> __setitem__) equals what
+    # item assignment of the same text stores
+    model_file = [
+        ("setup", "Channel Width", "20"),
+        ("setup", "Identifier", "0815"),
+        ("setup", "Medium", "true"),
+        ("setup", "chip region", "Channel"),
+        ("experiment", "Sample", "1e3"),
+        ("experiment", "Run Index", "3"),
+        ("experiment", "DATE", "2020-01-01"),
+        ("imaging", "Flash Device", "False"),
+        ("online_filter", "Area_um,Deform Soft Limit", "False"),
+        ("online_filter", "target event count", "500"),
+    ]
+    lines = ["# model file\n"]
+    cur = None
+    for sec, key, val in model_file:
+        if sec != cur:
+            lines.append(f"[{sec.title()}]\n")
+            cur = sec
+        lines.append(f"{key} = {val}  # comment\n")
+    try:
+        loaded = setitem.load(lines)
+        lerr = None
+    except ModelRaise as e:
+        loaded, lerr = None, e
+    for sec, key, val in model_file:
+        want = setitem(sec, key, val)
+        if len(want.stored) != 1:
+            raise AnalysisError(f"model file: [{sec}] {key} = {val} is not "
+                                "storable by item assignment")
+        wk, wv = want.stored[0]
+        problems = []
+        if lerr is not None:
+            problems.append(f"load_from_file raises {lerr.name}")
+        else:
+            secd = loaded.get(sec) if isinstance(loaded, dict) else None
+            hits = [(k, v) for k, v in (secd or {}).items()
+                    if isinstance(k, str) and k.lower() == wk]
+            if len(hits) != 1:
+                problems.append("the entry is not returned exactly once")
+            else:
+                got = setitem(sec, hits[0][0], hits[0][1])
+                if len(got.stored) != 1:
+                    problems.append(
+                        f"the loaded value {hits[0][1]!r} is rejected by "
+                        "the configuration")
+                else:
+                    gk, gv = got.stored[0]
+                    if gk != wk or not same_value(gv, wv) or type_tag(
+                            gv) != type_tag(wv):
+                        problems.append(
+                            f"the file gives {gk!r}: {gv!r} (loaded as "
+                            f"{hits[0][1]!r}), item assignment of the same "
+                            f"text gives {wk!r}: {wv!r} – the key is not "
+                            "looked up under the funnel's lower-case "
+                            "normalisation or the value by-passes the "
+                            "key's converter")
+        ctx.ob("R11.4", not problems,
+               f"file line `{key} = {val}` in [{sec}] ends up as "
+               f"{wk!r}: {wv!r}, like item assignment" if not problems else
+               f"file line `{key} = {val}` in [{sec}]: "
+               + "; ".join(problems), node=lf,
+               key=f"{CONF}::load_from_file::[{sec}] {key} = {val}")
+
     # export carries all metadata sections + user
     ex = repo.func(EXP, "Export.hdf5")
     lp = [n for n in walk(ex) if isinstance(n, ast.For)
@@ -1329,7 +1437,7 @@ def run(ctx):
              "and never reach the store", minimum=25)
     ctx.rule("R11.4", "writer converts with the key's converter and decodes "
              "bytes; reader assigns through a checking Configuration; file "
-             "values converted; export carries all sections", minimum=14)
+             "values converted; export carries all sections", minimum=24)
     ctx.rule("R11.5", "every converter accepts its declared output types "
              "and the HDF5 image of its outputs, returns a declared type, "
              "is idempotent (modelled numpy hierarchy)", minimum=45)
@@ -1347,7 +1455,7 @@ def run(ctx):
     r111(ctx, repo)
     storable = r112(ctx, repo, mp, mc, ml, setitem)
     r113(ctx, repo, mp, mc, setitem, verify, bound_k)
-    r114(ctx, repo)
+    r114(ctx, repo, setitem)
     r115(ctx, repo, mp, mc, ml, storable)
     ctx.model = (mp, mc, ml)
     ctx.evals = ctx.stats.pop("_evals")
@@ -1721,4 +1829,29 @@ MUTANTS = list(MUTANTS) + [
      "dclab/rtdc_dataset/config.py",
      ("        self.update(other)\n        return self",
       "        self.data.update(other)\n        return self"), "R11.1"),
+]
+
+# seeded change: the key read from a file is no longer lower-cased before the
+# known-key lookup (mixed-case keys go through the type guesser)
+MUTANTS = list(MUTANTS) + [
+    ("file keys looked up case-sensitively", CONF,
+     ("            var = var.strip().lower()\n            val = val.strip(",
+      "            var = var.strip()\n            val = val.strip("), "R11.4"),
+    ("file values of known keys always guessed", CONF,
+     ("            if dfn.config_key_exists(sec, var):\n"
+      "                convfunc",
+      "            if False:\n                convfunc"), "R11.4"),
+]
+TWINS = list(TWINS) + [
+    ("file key lower-cased at the lookup instead", CONF,
+     [("            var = var.strip().lower()\n            val = val.strip(",
+       "            var = var.strip()\n            val = val.strip("),
+      ("            if dfn.config_key_exists(sec, var):\n"
+       "                convfunc = dfn.get_config_value_func(sec, var)",
+       "            if dfn.config_key_exists(sec, var.lower()):\n"
+       "                convfunc = dfn.get_config_value_func(sec, "
+       "var.lower())")]),
+    ("file key normalised in the other order", CONF,
+     ("            var = var.strip().lower()\n            val = val.strip(",
+      "            var = var.lower().strip()\n            val = val.strip(")),
 ]
